@@ -36,6 +36,13 @@ type simErr struct{ Tok string }
 func (e *simErr) Error() string { return "simulated failure " + e.Tok }
 
 // customErr is a struct-typed error found with errors.As.
+// hintErr: an error that carries a retry hint, as rate-limit errors of API
+// clients do. The framework's retry wait is configured on the node, not by it.
+type hintErr struct{ Tok string }
+
+func (e hintErr) Error() string             { return "rate limited " + e.Tok }
+func (e hintErr) RetryAfter() time.Duration { return 0 }
+
 // nilPtrErr: the "typednil" flavour. The error a callback returns is a nil
 // *nilPtrErr in a non-nil error interface - the classic gotcha; it is an
 // error (err != nil), and the framework must treat it as one.
@@ -147,6 +154,9 @@ func (r *registry) mkErr(flavor, tok string) error {
 	switch flavor {
 	case "typednil":
 		var e *nilPtrErr
+		re = regErr{base: e, returned: e}
+	case "hint":
+		e := hintErr{Tok: tok}
 		re = regErr{base: e, returned: e}
 	case "sentinel", "errres":
 		e := &simErr{Tok: tok}
@@ -685,23 +695,36 @@ func (h *harness) exec(ctx context.Context, n *NodeSpec, arg any, anyStyle bool)
 	h.perform(n, o, need)
 	if o.Nested > 0 {
 		// a batch of its own, run from inside this item with the item's context
-		simrt.Emit(simrt.Event{Kind: "nested_start", N: n.ID, V: v, I: item + 1, S1: fmt.Sprint(o.Nested - 1)})
-		saved := *st // the nested run may be a re-entrant run of this very node object
+		nestedStore := ""
+		if o.NestedStore {
+			nestedStore = "scratch"
+		}
+		simrt.Emit(simrt.Event{Kind: "nested_start", N: n.ID, V: v, I: item + 1, S1: fmt.Sprint(o.Nested - 1), S2: nestedStore})
+		// the nested run may re-enter this very node object, or a flow that contains
+		// it: every node's per-visit bookkeeping is put back afterwards
+		saved := make([]nodeState, len(h.st))
+		simrt.Locked(func() {
+			for i, x := range h.st {
+				saved[i] = *x
+			}
+		})
 		var nerr error
 		if st.visits < 8 { // (a shrink candidate may nest without end; the model stops at the same point)
-			if o.Nested-1 == n.ID {
-				simrt.Locked(func() { st.open = false }) // the nested run opens a visit of its own
+			simrt.Locked(func() { st.open = false }) // a nested run of this node opens a visit of its own
+			store := h.store
+			if o.NestedStore {
+				store = flyt.NewSharedStore()
 			}
-			_, nerr = flyt.Run(ctx, h.nodes[o.Nested-1], h.store)
+			_, nerr = flyt.Run(ctx, h.nodes[o.Nested-1], store)
 		}
-		if o.Nested-1 == n.ID {
-			simrt.Locked(func() {
-				visits := st.visits
-				*st = saved
-				st.visits = visits
-			})
-		}
-		simrt.Emit(simrt.Event{Kind: "nested_end", N: n.ID, V: v, I: item + 1, S1: h.reg.describeErr(nerr)})
+		simrt.Locked(func() {
+			for i, x := range h.st {
+				visits := x.visits
+				*x = saved[i]
+				x.visits = visits
+			}
+		})
+		simrt.Emit(simrt.Event{Kind: "nested_end", N: n.ID, V: v, I: item + 1, S1: h.reg.describeErr(nerr), S2: nestedStore})
 	}
 	if o.Panic {
 		simrt.Emit(simrt.Event{Kind: "exec_panic", N: n.ID, V: v, A: a, I: item + 1})
@@ -834,9 +857,10 @@ func (h *harness) post(n *NodeSpec, shared *flyt.SharedStore, p, e any, resultSt
 		shared.Set("trail", shared.GetString("trail")+fmt.Sprintf("n%dv%d;", n.ID, v))
 	}
 	if o.Fail != "" {
-		err := h.reg.mkErr(o.Fail, tok+"X")
-		simrt.Emit(simrt.Event{Kind: "post_end", N: n.ID, V: v, S1: "err:" + tok + "X"})
-		return "", err
+		et := execErrTok(o, tok)
+		err := h.reg.mkErr(o.Fail, et)
+		simrt.Emit(simrt.Event{Kind: "post_end", N: n.ID, V: v, S1: "err:" + et})
+		return flyt.Action(o.Action), err // (a failing post may name an action too: the error decides)
 	}
 	simrt.Emit(simrt.Event{Kind: "post_end", N: n.ID, V: v, S1: "ok:" + o.Action})
 	return flyt.Action(o.Action), nil
@@ -1011,6 +1035,10 @@ func baseOpts(n *NodeSpec, form string) []flyt.NodeOption {
 		switch s.Param {
 		case "retries":
 			opts = append(opts, flyt.WithMaxRetries(s.Val))
+		case "retries+":
+			// a user-written option that is relative to the current setting
+			d := s.Val
+			opts = append(opts, flyt.NodeOption(func(b *flyt.BaseNode) { flyt.WithMaxRetries(b.GetMaxRetries() + d)(b) }))
 		case "wait":
 			opts = append(opts, flyt.WithWait(time.Duration(s.Val)*time.Millisecond))
 		case "conc":
